@@ -304,6 +304,53 @@ class C12:
                   "check_revivify no longer translates the provider-reported path", nontrivial=False)
 
 
+    def y8(self):
+        rep, ctx = self.rep, self.ctx
+        rep.rule("C12.Y8", "sync(), both sides renamed apart: the entry stays joined only when BOTH new names translate to the other side; if either does not "
+                 "(one side was moved out of its root) the entry is split, so the out-of-root object is never renamed / dragged back by its id", 1)
+        f = ctx.prog.func("SyncManager.sync")
+        names = []
+        defs = {}
+        for n in ctx.own_nodes(f):
+            if isinstance(n, ast.Assign) and len(n.targets) == 1 and isinstance(n.targets[0], ast.Name):
+                defs.setdefault(n.targets[0].id, []).append(n.value)
+                if any(isinstance(x, ast.Call) and pat.match("self.translate($$$)", x) is not None for x in ast.walk(n.value)):
+                    names.append(n.targets[0].id)
+        splits = [n for n in ctx.own_nodes(f) if isinstance(n, ast.Call) and pat.match("self.state.split($S)", n) is not None]
+        if len(names) != 2 or not splits:
+            raise AnalysisError("SyncManager.sync: the two translated names / the split call were not found (names=%s, splits=%d)" % (names, len(splits)))
+
+        def implied(e, pol):
+            """atoms that necessarily hold when `e` evaluates to `pol`"""
+            if isinstance(e, ast.Name) and e.id not in names and len(defs.get(e.id, [])) == 1 and isinstance(defs[e.id][0], (ast.BoolOp, ast.UnaryOp)):
+                e = defs[e.id][0]
+            if isinstance(e, ast.UnaryOp) and isinstance(e.op, ast.Not):
+                return implied(e.operand, not pol)
+            if isinstance(e, ast.BoolOp) and isinstance(e.op, ast.And if pol else ast.Or):
+                out = []
+                for v in e.values:
+                    out += implied(v, pol)
+                return out
+            return [ast.unparse(e) if pol else "not " + ast.unparse(e)]
+        for sp in splits:
+            # innermost If that has the split call in one arm and not in the other
+            holder, arm = None, None
+            for n in ctx.own_nodes(f):
+                if isinstance(n, ast.If):
+                    inb = any(x is sp for b in n.body for x in ast.walk(b))
+                    ino = any(x is sp for b in n.orelse for x in ast.walk(b))
+                    if inb != ino and (holder is None or any(x is n for x in ast.walk(holder))):
+                        holder, arm = n, ("body" if inb else "orelse")
+            ok, detail = False, "split is unconditional"
+            if holder is not None:
+                atoms = implied(holder.test, arm == "orelse")
+                ok = all(nm in atoms for nm in names)
+                detail = "the entry stays joined only when %s" % atoms
+            rep.check("C12.Y8", "sync|split-guard", ctx.line(f, sp), ok, detail,
+                      "a doubly renamed entry is kept joined although one of its new names does not translate (%s): the object that left the root is renamed by id - "
+                      "an out-of-root object is modified" % detail)
+
+
 def _parse(txt):
     try:
         return ast.parse(txt, mode="eval").body
@@ -335,4 +382,5 @@ def run(ctx: Ctx, rep: Report, tier: str):
     c.y5()
     c.y6()
     c.y7()
+    c.y8()
     rep.assume("an application-supplied translate() returns None for what it declines; provider-side event filtering is not relied upon")
